@@ -131,4 +131,6 @@ UdiffViol(r) ==
        \* whole-diff writer = file header + the hunks' own writers
        \cup (IF r.out_w = (IF r.header /\ r.hunks_w # <<>> THEN HdrOld \o HdrNew ELSE <<>>) \o r.hunks_w
              THEN {} ELSE {"writer_hunks"})
+       \* the same bytes reach a sink that accepts only a few bytes per write call
+       \cup (IF "out_w_chunk" \in DOMAIN r /\ r.out_w_chunk # r.out_w THEN {"writer_sink"} ELSE {})
 =============================================================================
